@@ -135,7 +135,11 @@ def gen_datetime(rng):
         s = s[:p] + rng.choice(['', 'x', ' ', '-', '0', 'T', ':', '\x00', 'é']) + s[p + (1 if rng.random() < 0.5 else 0):]
     elif k < 0.2:
         s = rng.choice(['+-', '-+', '++', '--', '+ ', '- ', '+x', '-.']) + s.lstrip('+-')      # malformed sign in front of the year
-    elif k < 0.22:
+    elif k < 0.24 and s:
+        # a non-ASCII character whose low byte is the expected ASCII character (U+0439 for '9', U+0154 for 'T'): must not be taken for it in any string width
+        p = rng.randrange(len(s))
+        s = s[:p] + chr(ord(s[p]) + 0x100 * rng.choice([1, 2, 4, 0x20, 0x30, 0xFF])) + s[p + 1:]
+    elif k < 0.26:
         s = rng.choice(['', 'Z', 'T', '2024', '2024-01-01', '2024-01-01T00:00Z', '2024-01-01 00:00:00Z', '20240101T000000Z', '2024-1-1T0:0:0Z', '99-01-01T00:00:00Z',
                         '+2024-01-01T00:00:00Z', '-0000-01-01T00:00:00Z', '02024-01-01T00:00:00Z', '12345-01-01T00:00:00Z', '2024-01-01T00:00:00.Z', '2024-01-01T00:00:00.5.5Z'])
     return s
@@ -179,6 +183,9 @@ def gen_duration(rng):
     elif k < 0.1:
         p = rng.randrange(len(s) + 1)
         s = s[:p] + rng.choice(['x', ' ', 'T', 'P', '-', 'Y', 'M', '\x00', 'é', '']) + s[p + (1 if rng.random() < 0.5 else 0):]
+    elif k < 0.13 and s:
+        p = rng.randrange(len(s))
+        s = s[:p] + chr(ord(s[p]) + 0x100 * rng.choice([1, 2, 4, 0x20, 0x30, 0xFF])) + s[p + 1:]      # low byte aliases the expected ASCII character
     return s
 
 
